@@ -9,7 +9,7 @@ EXPLANATION = ('SCOPE rule F1 on the four merge_all observers and their queued s
                'stored (queued) closure is called, while a guard of the shared observer_data cell may be held. An inner observable that emits '
                'synchronously at subscription re-enters InnerObserver::next, which re-acquires the same cell: RefCell panics, Mutex '
                'self-deadlocks. F4: slot accounting — outer next subscribes only into a free slot (counting it) and otherwise queues exactly once; an inner completion hands its slot to exactly one waiting task or gives it back; a queued task subscribes once and leaves the counter alone (decision tables over running - limit, abstract interpretation). F3: each observer method takes its decision and acts on it within one acquisition of the shared state (no check-then-act split). F2: the queue of waiting inner subscriptions is first-in-first-out (necessary for concat order and for merge_all(n) serving waiters in arrival order). Decides the "without panicking or blocking" clause and this ordering precondition; exactly-once delivery, order, order beyond F2 and the completion condition are not decided. Inner/outer error '
-               'envelopes are checked under C03.S2. F5 the builders wire the concurrency limit their names promise: concat_all/concat_map = merge_all with limit 1, flatten/flat_map = no limit, merge_all(n) = n, in the local and the thread-safe form (operator trees of the builders).')
+               'envelopes are checked under C03.S2. F6 the completion of the outer stream is never swallowed: on every path of complete() of the outer observer it is either recorded (flag) or delivered downstream, or the slot is already empty; F5 the builders wire the concurrency limit their names promise: concat_all/concat_map = merge_all with limit 1, flatten/flat_map = no limit, merge_all(n) = n, in the local and the thread-safe form (operator trees of the builders).')
 TECHNIQUE = 'static analysis: lock-scope, slot-accounting and FIFO rules over MIR event graphs; operator-tree matching of the flattening builders (custom rustc_private driver)'
 ASSUMPTIONS = ['an inner observable may emit synchronously during actual_subscribe']
 
@@ -66,6 +66,7 @@ def check(cx):
     if not cx.control:
         res += f4(cx)
         res += f5(cx)
+        res += f6(cx)
     from ..core import fifo_findings
     ff = fifo_findings(cx, ID, 'F2', ('src/ops/merge_all.rs',))
     res += ff
@@ -224,3 +225,31 @@ def f5(cx):
         table['observable::ObservableExt::flat_map' + suffix] = ('flat_map' + suffix, OP('merge_all', OP('map', SELF, A(2)), MAXC))
         table['observable::ObservableExt::concat_map' + suffix] = ('concat_map' + suffix, OP('merge_all', OP('map', SELF, A(2)), C(1)))
     return c03.check_builder_trees(cx, ID, 'F5', table, what='does not pass on the concurrency limit its name promises')
+
+
+def f6(cx):
+    """complete() of the outer observer: recorded or delivered on every path (provenance dataflow)"""
+    from .. import prov as P
+    res = []
+    n = 0
+    for im in cx.observer_impls():
+        tag = roles.impl_tag(cx, im)
+        if tag not in ('ops::merge_all::OutsideObserver', 'ops::merge_all::OutsideObserverThreads'):
+            continue
+        n += 1
+        fn = cx.method(im, 'complete')
+        sums, _ = P.summaries(cx.graph(fn['key']), item_arg=0)
+        bad = None
+        for sm, key in sums:
+            if P.emits(sm, 'complete'):
+                continue
+            if any(t[0] == 'discr' and v == 0 for t, v in sm['conds']):
+                continue        # the shared state is already gone
+            if any(v == ('const', 'true') for k, v in sm['store'].items() if k[0] == 'S'):
+                continue        # recorded for the last inner to act on
+            bad = 'a path of complete() neither records nor delivers the completion of the outer stream although the shared state is still there: the merged stream never completes (conditions on that path: %s)' % \
+                  ', '.join('%s=%s' % (P.show(t)[:50], v) for t, v in sm['conds'])[:200]
+        res.append(Finding(ID, 'F6', cx.label(fn), not bad, bad or 'the outer completion is recorded or delivered on every path', fn['span']))
+    if n < 2:
+        res.append(Finding(ID, 'F6', 'floor', False, 'outer observers of merge_all not found'))
+    return res
